@@ -31,6 +31,12 @@ type liveCase struct {
 	InfoRaw     string // content of the .info file instead of the generated one
 	Unreachable bool   // SIMULATE_ROUTER points to nothing that answers
 	CheckBanner string // regexp; "" = not configured
+	// Interactive: drc -u admin on a pseudo terminal, password typed by
+	// tools/ptyrun.py; value = which streams are redirected to files
+	// (none | out | err | both). The terminal display and the files end
+	// up in logs/tty/.
+	Interactive string
+	TypedPass   string
 	Credentials string // content of credentials file
 	Timeout     int
 	Race        bool
@@ -158,7 +164,14 @@ func (lc *liveCase) command(env *run.Env, dir, home, base, simulate string) ([]s
 		if !lc.NoLogDir {
 			argv = append(argv, "-L", filepath.Join(dir, "logs"))
 		}
+		if lc.Interactive != "" {
+			argv = append(argv, "-u", "admin")
+		}
 		argv = append(argv, arg)
+		if lc.Interactive != "" {
+			argv = append([]string{"python3", filepath.Join(env.Verif, "tools/ptyrun.py"), lc.TypedPass, lc.Interactive,
+				filepath.Join(dir, "logs/tty"), "--"}, argv...)
+		}
 	} else {
 		argv = []string{bin}
 		if lc.Brief {
